@@ -256,7 +256,7 @@ def c19(ctx):
             argv += ['-H', ' '.join(hashes)]
         wm = fmt = None
         if r.random() < 0.25:
-            wm = r.choice([0, 64, 100000])
+            wm = r.choice([0, 64, 300, 600, 1200, 100000])
             ov['watermark'] = wm
             argv += ['-c', str(wm)]
         if r.random() < 0.2:
@@ -307,9 +307,12 @@ def c19(ctx):
                                     f.write(b'!')
                             edits.append([k, p])
                     out['edits'] = edits
-                    uargv = ['update', '-p', c.meta['profile']] + (['-H', ' '.join(c.meta['overrides']['hashes'])] if 'hashes' in c.meta['overrides'] else []) + [b]
+                    ovr = c.meta['overrides']
+                    uargv = ['update', '-p', c.meta['profile']] + (['-H', ' '.join(ovr['hashes'])] if 'hashes' in ovr else []) \
+                        + (['-c', str(ovr['watermark'])] if 'watermark' in ovr else []) + (['-C', ovr['format']] if 'format' in ovr else []) + [b]
                     out['update'] = p_c18.run_cli(uargv, key)
                     if out['update'] == ['exit', 0]:
+                        out['files2'] = ET.canon_files(ET.list_real_files(b))
                         out['verify2'] = p_c18.run_cli(['verify', b], key)
             except Exception as e:
                 out['harness-error'] = repr(e)
@@ -362,6 +365,24 @@ def c19(ctx):
         else:
             st['verifies_with_plain_loader'] += 1
         if out.get('update') == ['exit', 0]:
+            # the compression policy holds for every sub-Manifest the update has rewritten, too
+            wm2 = c.meta['overrides'].get('watermark', 128 if prof != 'default' else None)
+            if wm2 is not None and 'files2' in out:
+                f2 = PU.files_of(out['files2'])
+                for p2, d2 in sorted(f2.items()):
+                    if not os.path.basename(p2).startswith('Manifest') or os.path.dirname(p2) == '' or files.get(p2) == d2:
+                        continue
+                    raw2 = OX.plain_bytes(p2, d2)
+                    ents2 = OX.parse(p2, d2)
+                    if raw2 is None or ents2 is None:
+                        continue
+                    compressed = ET.suffix_of(os.path.basename(p2)) is not None
+                    expect = len(raw2) >= wm2 and not (prof == 'old-ebuild' and any(e[0] == 'EBUILD' for e in ents2))
+                    if compressed != expect and not any(os.path.dirname(q) == os.path.dirname(p2) and q != p2 and os.path.basename(q).startswith('Manifest') for q in f2):
+                        replay['after_update'] = f'{p2}: {len(raw2)} bytes uncompressed, watermark {wm2}: stored {"compressed" if compressed else "plain"}'
+                        if not known_finding(ctx, 'C19', c, 'policy', [replay['after_update']]):
+                            ctx.violation('spec', f'after edits and update -p {prof} a rewritten sub-Manifest does not follow the compression watermark: {replay["after_update"]}', replay)
+                        break
             if out.get('verify2') != ['exit', 0]:
                 ctx.violation('spec', f'after edits {out.get("edits")} and update -p {prof} the tree does not verify: {out.get("verify2")}', replay)
             else:
